@@ -570,6 +570,19 @@ func (l *lexer) setResult(lax bool, node ast.Node) {
 	l.result = ast
 }
 
+// newRegex returns the like_regex node for expr, pattern and flags. Invalid
+// flags or an invalid pattern are reported as a parse error; the node
+// returned in that case only lets the parser carry on to the end of the input
+// (a nil *ast.RegexNode in the node list made it panic).
+func (l *lexer) newRegex(expr ast.Node, pattern, flags string) ast.Node {
+	node, err := ast.NewRegex(expr, pattern, flags)
+	if err != nil {
+		l.Error(err.Error())
+		return ast.NewConst(ast.ConstNull)
+	}
+	return node
+}
+
 // newNumber returns the node for the numeric literal text, an INT_P token if
 // integer is true and a NUMERIC_P token otherwise. A literal that cannot be
 // represented is reported as a parse error.
